@@ -248,6 +248,7 @@ func (a *sideEffectActor) InboxForwarding(c context.Context, inboxIRI *url.URL, 
 		// WARNING: Not Unlocked
 		t, err := a.db.Get(c, iri)
 		if err != nil {
+			a.db.Unlock(c, iri)
 			return err
 		}
 		if streams.IsOrExtendsActivityStreamsOrderedCollection(t) {
